@@ -208,6 +208,23 @@ for name, (fn, cols) in SPEC.items():
     if all(isinstance(x, int) for x in ref):
         for i in range(3): sample.append({"f": name.split(".")[-1], "args": [int(c[i]) for c in cols], "value": ref[i]})
 run_fn("mdc_gid_z_to_x", det.mdc_gid_z_to_x, [gid_m], [zs]); run_fn("mdc_gid_z_to_y", det.mdc_gid_z_to_y, [gid_m], [zs])
+# z given as whole numbers in integer containers (negative ones included): the same positions as with the float of each value
+zi = [rng.randrange(-115, 116) for _ in range(N)]
+for nm, fn in (("mdc_gid_z_to_x", det.mdc_gid_z_to_x), ("mdc_gid_z_to_y", det.mdc_gid_z_to_y)):
+    want = [canon(fn(int(g), float(z))) for g, z in zip(gid_m, zi)]; n_eval += N
+    for kind, garr, zarr in (("np.int64", np.array(gid_m), np.array(zi, dtype=np.int64)), ("np.int32", np.array(gid_m), np.array(zi, dtype=np.int32)),
+                             ("np.int16", np.array(gid_m, dtype=np.uint16), np.array(zi, dtype=np.int16)), ("np.int8", np.array(gid_m), np.array(zi, dtype=np.int8)),
+                             ("ak.int64", ak.Array(np.array(gid_m)), ak.Array(np.array(zi, dtype=np.int64))), ("np.float32", np.array(gid_m), np.array(zi, dtype=np.float32))):
+        sys.stderr.write(f"BEGIN {nm}|z-as-{kind}\n"); sys.stderr.flush()
+        try:
+            r = fn(garr, zarr); got = canon(ak.to_list(r) if isinstance(r, ak.Array) else np.asarray(r).tolist()); n_eval += N
+            matrix[f"{nm}|z-as-{kind}"] = "ok" if got == want else "differs"
+            if got != want:
+                j = next(i for i in range(N) if got[i] != want[i])
+                report(f"C14:value:{nm}:z-as-{kind}", f"{nm}(gid, z) with z as {kind} differs from the call with the float of the same number at element {j}: gid {gid_m[j]}, z {zi[j]}: {got[j]} vs {want[j]}",
+                       {"function": nm, "kind": kind, "args": [int(gid_m[j]), int(zi[j])]})
+        except Exception as e:
+            matrix[f"{nm}|z-as-{kind}"] = f"raises {type(e).__name__}"
 # two-argument functions with one scalar and one array argument (broadcast)
 for name, fn, arr, sc in (("get_mdc_gid", det.get_mdc_gid, [0, 1, 2, 3], 5), ("emc_gid_to_point_x", det.emc_gid_to_point_x, gid_e[:6], 3)):
     want = [canon(fn(int(a), sc)) for a in arr]
@@ -308,7 +325,11 @@ for pname, idp, ids, extra_in, extra_out in (
     cols = {"m_intId": np.array(ids, dtype=np.uint32)}
     for j, k in enumerate(extra_in): cols[k] = np.array([rng.randrange(1 << 16) for _ in range(N)], dtype=np.uint32)
     flat = ak.zip({k: ak.Array(v) for k, v in cols.items()})
-    for kind, x in (("ak.flat", flat), ("ak.ragged", ak.unflatten(flat, cuts)), ("ak.event", ak.unflatten(flat, cuts)[2])):
+    # the same digis as records whose fields are stored in another order (a re-zipped or re-projected collection): fields are named
+    rev = ak.zip({k: ak.Array(cols[k]) for k in reversed(list(cols))})
+    proj = flat[[list(cols)[k] for k in (2, 0, 4, 1, 3)][:len(cols)]] if len(cols) == 5 else flat
+    for kind, x in (("ak.flat", flat), ("ak.ragged", ak.unflatten(flat, cuts)), ("ak.event", ak.unflatten(flat, cuts)[2]),
+                    ("ak.flat.fields-reversed", rev), ("ak.ragged.fields-reordered", ak.unflatten(proj, cuts))):
         for wp in (False, True):
             tag = f"{pname}|{kind}|with_pos={wp}"
             try:
